@@ -122,7 +122,7 @@ CHECKS = {
                      'zero-value UnsafeGoMap/UnsafeGoSet fallbacks: correspondence + direct checks only'],
     ),
     'C04': dict(
-        spec=['FpVerif.Spec.C04Seq', 'FpVerif.Spec.C04Facts', 'FpVerif.Spec.C04Frame', 'FpVerif.Spec.C03'],
+        spec=['FpVerif.Spec.C04Seq', 'FpVerif.Spec.C04Facts', 'FpVerif.Spec.C04Frame', 'FpVerif.Spec.C04Hamt', 'FpVerif.Spec.C03'],
         facts=facts_c04,
         harnesses=[H('seqheap', 'oracle_seqheap', 4000, 200000),
                    H('frame', None, 60000, 3000000, nontrivial=lambda op, impl: op.count('(') >= 2),
@@ -140,10 +140,14 @@ CHECKS = {
                    'over its full capacity with its snapshot; results and callback arguments join the pool; package clone must return fresh storage. '
                    'Spec.C04Frame (regenerated table FpVerif/Gen/FrameFacts.lean): every enumerated entry is covered by a registered wrapper or is one of the '
                    'explicitly listed exceptions (higher members of numbered arity families, 3 named functions). '
-                   'Value-receiver facts for Option/Try/tuples/Seq (Spec.C04Facts); immutable Map/Set: the '
-                   'value-level HAMT model is persistent by construction, so the Lean theorems (Spec.C03) do not speak about Go pointer sharing — PARTIAL there: '
-                   'node sharing, the in-place builder path and builder-after-Build are tied by the hamt harness, which keeps every version of a branching history '
-                   'alive and re-reads all of them after every later operation (shape + content), plus model-free persistence checks.',
+                   'Value-receiver facts for Option/Try/tuples/Seq (Spec.C04Facts). Immutable Map/Set (Spec.C04Hamt): heap (pointer-level) model of immutable/map.go '
+                   '(Model/HamtHeap.lean: *hamt header, 5 node structs, backing arrays of the entries/nodes slices; the `mutable` flag as explicit in-place stores); '
+                   'proved: the copying path writes no existing cell (no hypotheses); refinement to the value-level HAMT (all of Spec.C03 transfers to what a pointer shows); '
+                   'every_version_stays_intact for all branching histories over every version ever handed out and the builders (Model/HamtWorld.lean); builders write only '
+                   'cells they own; negative result (decide) for the SetBuilder as it was before fix 5a0c6c4. Tie: the oracle runs the heap model next to the value model '
+                   '(model-divergence marker) and every version-creating answer carries the sharing token al=<cells>/<fresh>:<digest> - the canonical numbering of the REAL '
+                   'pointers (hook immutable.VerifAlias) against the model addresses - so a node shared where the model copies, or copied where it shares, is a mismatch; '
+                   'plus the re-read-all-versions check. Not proved: refinement of delete(mutable=true) (no caller in the library).',
         modelled='seq.go (Widen, Init, Tail, UnSeq, Take, Drop, Filter, FilterNot, Map, FlatMap, Add, Append, Concat, Reverse), seq/seq_op.go (Sort, Distinct, Scan, Span, '
                  'Partition, Map, FlatMap, Flatten, Ap, Map2, FilterMap, Concat, Of, Pure, Collect, Reduce; Fold/FoldTry/Min/Max/GroupBy/Zip/ZipWithIndex/ToGoSet as '
                  'non-writing calls), monoid.MergeSeq / MergeSlice (Combine, Empty), Iterator.ToSeq / iterator.ToSeq / ToSlice over FromSeq/FromSlice, Option.ToSeq / '
@@ -437,7 +441,7 @@ CHECKS.update({
     ),
 })
 
-HOOK_COMMITS = ['068ea8a', '2723e24', 'd1abfff']
+HOOK_COMMITS = ['068ea8a', '2723e24', 'd1abfff', 'd51f3b4']
 
 NOT_APPLICABLE = {
     'C13': "byte-level reproducibility of three generator executables over a file tree: no executable Lean model short of a model of "
